@@ -40,6 +40,7 @@ fn c06_field_df21() {
 #[cfg_attr(kani, kani::unwind(33))]
 #[cfg_attr(kani, kani::stub(chrono::Utc::now, crate::verif::rt::stub_now))]
 #[cfg_attr(kani, kani::stub(crate::decoder::get_downlink_format, super::rows::stub_get_df))]
+#[cfg_attr(kani, kani::stub(crate::decoder::adsb::icao::get_icao, super::rows::stub_get_icao))]
 #[cfg_attr(verif_replay, test)]
 fn c06_row_df5() {
     let m = frame14();
@@ -64,6 +65,7 @@ fn c06_row_df5() {
 #[cfg_attr(kani, kani::unwind(33))]
 #[cfg_attr(kani, kani::stub(chrono::Utc::now, crate::verif::rt::stub_now))]
 #[cfg_attr(kani, kani::stub(crate::decoder::get_downlink_format, super::rows::stub_get_df))]
+#[cfg_attr(kani, kani::stub(crate::decoder::adsb::icao::get_icao, super::rows::stub_get_icao))]
 #[cfg_attr(verif_replay, test)]
 fn c06_create_df5() {
     let m = frame14();
@@ -82,6 +84,7 @@ fn c06_create_df5() {
 #[cfg_attr(kani, kani::unwind(90))]
 #[cfg_attr(kani, kani::stub(chrono::Utc::now, crate::verif::rt::stub_now))]
 #[cfg_attr(kani, kani::stub(crate::decoder::get_downlink_format, super::rows::stub_get_df))]
+#[cfg_attr(kani, kani::stub(crate::decoder::adsb::icao::get_icao, super::rows::stub_get_icao))]
 #[cfg_attr(kani, kani::stub(crate::decoder::adsb::ais::ais, super::rows::stub_ais))]
 #[cfg_attr(verif_replay, test)]
 fn c06_row_df21() {
